@@ -3,6 +3,7 @@ package props
 import (
 	"bytes"
 	"encoding/hex"
+	"errors"
 	"fmt"
 	plugin "simworld/goplugin"
 	"sync"
@@ -36,7 +37,7 @@ func c11Fill(stream string, off, n int) []byte {
 func init() {
 	Register(&Prop{ID: "C11",
 		Meta: Meta{Level: "exploration",
-			Rule: "real Client+Serve (net/rpc, gRPC, gRPC+mux; TLS none/AutoMTLS); the plugin's own code writes a drawn sequence of 1-10 chunks (sizes 0..70000 around the 1KiB chunk and 4KiB buffer boundaries, position-dependent arbitrary bytes, different on the two streams) to its process stdout/stderr after serving began but before the host attached (host attaches 0-3s later), then a second drawn sequence through RPC calls interleaved with other RPC traffic; seeded schedule noise focused on grpc_stdio.go/stream.go/rpc_*.go, socket and pipe short reads, small socket buffers and latency. Oracle: at several earlier observations each sync writer holds a prefix of that stream's expected bytes, and at quiescence with the connection alive it equals them exactly (nothing lost, duplicated, reordered or crossed)"},
+			Rule: "real Client+Serve (net/rpc, gRPC, gRPC+mux; TLS none/AutoMTLS); the plugin's own code writes a drawn sequence of 1-10 chunks (sizes 0..70000 around the 1KiB chunk and 4KiB buffer boundaries, position-dependent arbitrary bytes, different on the two streams) to its process stdout/stderr after serving began but before the host attached (host attaches 0-3s later), then a second drawn sequence through RPC calls interleaved with other RPC traffic; seeded schedule noise focused on grpc_stdio.go/stream.go/rpc_*.go, socket and pipe short reads, small socket buffers and latency. Oracle: at several earlier observations each sync writer holds a prefix of that stream's expected bytes, and at quiescence with the connection alive it equals them exactly (nothing lost, duplicated, reordered or crossed); plus one failing or short Write of a sync writer: the other stream still arrives exactly, the failing one holds its own bytes in order apart from one gap"},
 		Plan: func(tier string, seed uint64, stage int, prev []*h.Result) []*k.Spec {
 			if stage > 0 {
 				return nil
@@ -47,6 +48,18 @@ func init() {
 					for _, sz := range []string{"1", "1024", "1025", "4096", "4097", "70000"} {
 						for _, when := range []string{"early", "late"} {
 							out = append(out, sp("C11", fmt.Sprintf("fixed/%s/%s/%s", confLabel(c), sz, when), seed, cp(c, "fixed", sz, "when", when)))
+						}
+					}
+				}
+			}
+			if tier != "selftest" {
+				// one Write of a sync writer fails or is short
+				for _, c := range c03Confs[:3] {
+					for _, bad := range []string{"out", "err"} {
+						for _, at := range []string{"1", "2", "4"} {
+							for _, acc := range []string{"0", "3", "200"} {
+								out = append(out, sp("C11", fmt.Sprintf("writer-error/%s/%s/%s/%s", confLabel(c), bad, at, acc), seed, cp(c, "werr", bad, "failat", at, "accept", acc)))
+							}
 						}
 					}
 				}
@@ -85,6 +98,111 @@ func init() {
 		},
 		Run: runC11,
 	})
+}
+
+// failBuf is a sync writer one of whose Write calls fails, accepting only
+// the first `accept` bytes of that call.
+type failBuf struct {
+	mu     sync.Mutex
+	b      bytes.Buffer
+	calls  int
+	failAt int // 1-based index of the failing call; 0: never
+	accept int
+	failed bool
+}
+
+func (s *failBuf) Write(p []byte) (int, error) {
+	s.mu.Lock()
+	defer s.mu.Unlock()
+	s.calls++
+	if s.calls == s.failAt {
+		n := s.accept
+		if n > len(p) {
+			n = len(p)
+		}
+		s.b.Write(p[:n])
+		s.failed = true
+		return n, errors.New("sync writer: no space left")
+	}
+	return s.b.Write(p)
+}
+func (s *failBuf) Bytes() []byte {
+	s.mu.Lock()
+	defer s.mu.Unlock()
+	return append([]byte(nil), s.b.Bytes()...)
+}
+
+// runC11WriterError: one Write of one of the host's sync writers fails (or is
+// short). That stream may lose the rest of the rejected chunk (net/rpc: the
+// rest of the stream - its copy loop ends); the OTHER stream must still arrive
+// byte for byte, and neither writer may ever see a byte of the other stream.
+func runC11WriterError(r *h.Run) {
+	w := r.W
+	c := r.ConfFromParams()
+	bad := r.Spec.P("werr", "out")
+	failAt := r.Spec.PI("failat", 2)
+	accept := r.Spec.PI("accept", 0)
+	bufs := map[string]*failBuf{"out": {}, "err": {}}
+	bufs[bad].failAt, bufs[bad].accept = failAt, accept
+	c.SyncStdout, c.SyncStderr = bufs["out"], bufs["err"]
+	ctx := fmt.Sprintf("conf=%s sync-writer-error stream=%s accepted=%d", c.String(), bad, accept)
+	r.InstallPlugin(&c)
+	cl := r.NewClient(c)
+	o := r.DoNoHang("Client+Dispense", 120*time.Second, ctx, func() (any, error) {
+		cp, err := cl.Client()
+		if err != nil {
+			return nil, err
+		}
+		return cp.Dispense(h.PluginName)
+	})
+	if o.Err != nil || o.Hung {
+		r.Violate("setup", "connect failed "+ctx, fmt.Sprint(o.Err))
+		return
+	}
+	cmd := o.Val.(plugins.Cmd)
+	exp := map[string][]byte{"out": nil, "err": nil}
+	sizes := []int{40, 25, 700, 300, 9, 11, 1500, 1024, 5, 3}
+	for i, n := range sizes {
+		st := []string{"out", "err"}[i%2]
+		if bad == "err" {
+			st = []string{"err", "out"}[i%2]
+		}
+		data := c11Fill(st, len(exp[st]), n)
+		exp[st] = append(exp[st], data...)
+		opn := map[string]string{"out": "stdout", "err": "stderr"}[st]
+		ro := r.DoNoHang(fmt.Sprintf("Do(%s,%d)", opn, n), 90*time.Second, ctx, func() (any, error) { return cmd.Do(opn, hex.EncodeToString(data)) })
+		if ro.Hung {
+			return
+		}
+		// let this chunk reach the host before the next one is written (the
+		// order in which the two streams' chunks arrive is then the order written)
+		time.Sleep(200 * time.Millisecond)
+	}
+	time.Sleep(5 * time.Second)
+	if !bufs[bad].failed {
+		w.Probe("werr.writer-never-failed")
+	} else {
+		w.Probe("werr.writer-failed")
+	}
+	good := other(bad)
+	if w.FaultCount("conn.rst") == 0 {
+		if got := bufs[good].Bytes(); !bytes.Equal(got, exp[good]) {
+			r.Violate("stdio-corrupt", ctx+" other-stream", "the stream whose writer never failed: "+describeDiff(got, exp[good], exp[bad]))
+		}
+		got, e := bufs[bad].Bytes(), exp[bad]
+		i := firstDiff(got, e)
+		rest := got[min(i, len(got)):]
+		okGap := len(rest) == 0
+		for j := i; !okGap && j+len(rest) <= len(e); j++ {
+			if bytes.Equal(e[j:j+len(rest)], rest) {
+				okGap = true
+			}
+		}
+		if !okGap {
+			r.Violate("stdio-corrupt", ctx+" failing-stream", "apart from one gap (the rejected bytes) the failing stream's writer must hold that stream's bytes in order: "+describeDiff(got, e, exp[good]))
+		}
+	}
+	r.DoNoHang("Kill", 120*time.Second, ctx, func() (any, error) { cl.Kill(); return nil, nil })
 }
 
 type c11Write struct {
@@ -212,6 +330,10 @@ func runC11SecondHost(r *h.Run) {
 func runC11(r *h.Run) {
 	if r.Spec.P("secondhost", "") == "1" {
 		runC11SecondHost(r)
+		return
+	}
+	if r.Spec.P("werr", "") != "" {
+		runC11WriterError(r)
 		return
 	}
 	w := r.W
